@@ -159,6 +159,25 @@ def correspondence(ctx):
                   ("constraint.contains()", lambda v: con.contains(v)), ("range.contains()", lambda v: rng_obj.contains(v)),
                   ("star constraint.contains()", lambda v: star.contains(v)), ("satisfies star", lambda v: v.satisfies(star)),
                   ("star range.contains()", lambda v, r=star_range: r.contains(v))]
+        # the star constraint the library itself builds (parsing `vers:<scheme>/*`, the native match-all expressions)
+        try:
+            from univers.version_range import VersionRange as _VR
+            if S.rclass(name) is not None:
+                parsed_star = _VR.from_string("vers:%s/*" % rcls.scheme)
+                pc = parsed_star.constraints[0]
+                shapes += [("star constraint of the parsed star range", lambda v, pc=pc: v in pc),
+                           ("satisfies(star constraint of the parsed star range)", lambda v, pc=pc: v.satisfies(pc)),
+                           ("parsed star range", lambda v, r=parsed_star: v in r)]
+            for native in ("*", "all"):
+                try:
+                    ns = rcls.from_native(native)
+                except Exception:  # noqa: BLE001
+                    continue
+                if ns.constraints and ns.constraints[0].comparator == "*":
+                    nc = ns.constraints[0]
+                    shapes += [("star constraint of from_native(%r)" % native, lambda v, nc=nc: v in nc)]
+        except Exception:  # noqa: BLE001
+            pass
         if len(own) >= 2:
             a, b = own[0][1], own[-1][1]
             for label, cs in (("range =a|=b", [("=", a), ("=", b)]), ("range !=a|!=b", [("!=", a), ("!=", b)]),
@@ -171,6 +190,7 @@ def correspondence(ctx):
                 shapes.append((label, lambda v, rr=rr: v in rr))
                 shapes.append((label + " .contains()", lambda v, rr=rr: rr.contains(v)))
                 shapes.append((label + " satisfies(range)", lambda v, rr=rr: v.satisfies(rr)))
+                shapes.append((label + " normalize([version object])", lambda v, rr=rr: rr.normalize([v])))
         # history: the scheme's own versions, in the spellings shared with other classes, are tested first, so that
         # anything remembered about (range, printed text) is there when the foreign version with that text arrives
         for t in ("1.2.3", "1.0.1"):
